@@ -305,18 +305,27 @@ def _tensor_product_Povm_Povm(povm1: Povm, povm2: Povm) -> Povm:
     # permutate list of tensor vecs
     nums_local_outcomes = copy.copy(povm1.nums_local_outcomes)
     nums_local_outcomes.extend(povm2.nums_local_outcomes)
-    perm_matrix = matrix_util.calc_permutation_matrix(system_order, nums_local_outcomes)
-    tensor_vecs = matrix_util.convert_list_by_permutation_matrix(
-        tensor_vecs, perm_matrix
-    )
+    if len(nums_local_outcomes) == len(system_order):
+        perm_matrix = matrix_util.calc_permutation_matrix(
+            system_order, nums_local_outcomes
+        )
+        tensor_vecs = matrix_util.convert_list_by_permutation_matrix(
+            tensor_vecs, perm_matrix
+        )
 
-    # permutate nums_local_outcomes
-    system_outcomes = [
-        (system_name, num_outcome)
-        for system_name, num_outcome in zip(system_order, nums_local_outcomes)
-    ]
-    system_outcomes = sorted(system_outcomes, key=itemgetter(0))
-    new_nums_local_outcomes = [system_outcome[1] for system_outcome in system_outcomes]
+        # permutate nums_local_outcomes
+        system_outcomes = [
+            (system_name, num_outcome)
+            for system_name, num_outcome in zip(system_order, nums_local_outcomes)
+        ]
+        system_outcomes = sorted(system_outcomes, key=itemgetter(0))
+        new_nums_local_outcomes = [
+            system_outcome[1] for system_outcome in system_outcomes
+        ]
+    else:
+        # a factor is a joint measurement on several subsystems: its outcome index belongs to
+        # no single subsystem, so the outcome indices stay in the order of the arguments.
+        new_nums_local_outcomes = nums_local_outcomes
 
     # create Povm
     is_physicality_required = (
